@@ -773,6 +773,11 @@ class GuardProg(Prog):
         self.case = case
         self.mid, self.top, self.names = annotate(case)
         self.access = {}        # block id -> (offset, tag) the block writes
+        # guards (numbered in program order, from 1) right before which the
+        # program uses r9 for something else: a guard has to work whatever
+        # the registers held before it
+        self.clobber = set(case.get("clobber") or ())
+        self.gno = 0
         attrs = {}
         if case["min"] is not None:
             attrs["minimumPacketSize"] = case["min"]
@@ -804,6 +809,9 @@ class GuardProg(Prog):
 
     def node(self, e, t, known, acc):
         op, G, opt, bid, body, eid, els = t
+        self.gno += 1
+        if self.gno in self.clobber:
+            e.r9 = 0
         cm = {"gt": lambda: e.packetSize > G, "ge": lambda: e.packetSize >= G,
               "lt": lambda: e.packetSize < G, "le": lambda: e.packetSize <= G
               }[op]()
@@ -850,6 +858,8 @@ def guard_expect(prog, length, min_runs):
 def run_guard_case(case, seed, res, caseno, kernel_every, only=None):
     M = case["min"]
     cj = dict(family="guards", min=M, top=case["top"])
+    if case.get("clobber"):
+        cj["clobber"] = list(case["clobber"])
     try:
         p = GuardProg(case)
     except core.Internal:
@@ -872,7 +882,8 @@ def run_guard_case(case, seed, res, caseno, kernel_every, only=None):
         return [p.names[i] for i in ids] or ["nothing"]
 
     def sig(what):
-        return core.digest(["guards", what, shape, M is not None])
+        return core.digest(["guards", what, shape, M is not None,
+                            bool(case.get("clobber"))])
     try:
         runs = only or [(length, cid) for length in guard_lengths(case)
                         for cid in GCONTENTS]
@@ -1031,6 +1042,14 @@ def guard_cases(quick):
                             continue
                         for M in mins:
                             out.append(dict(min=M, top=top))
+                            if n > (2 if quick else 3):
+                                continue
+                            # r9 used for something else before one / all
+                            # of the guards
+                            for cl in [(k,) for k in range(1, n + 1)] + \
+                                    ([tuple(range(1, n + 1))] if n > 1
+                                     else []):
+                                out.append(dict(min=M, top=top, clobber=cl))
     return out
 
 
@@ -1126,7 +1145,10 @@ def run(ctx):
         "> n would allow n+1); under minimumPacketSize n the length n itself "
         "may or may not run the body.  Whether the kernel verifier accepts a "
         "program that uses an outer guard's promise after an inner guard "
-        "reloaded r9 is not judged (counted as kernel_rejected)",
+        "reloaded r9 is not judged (counted as kernel_rejected); in the "
+        "'clobber' variants the program assigns 0 to r9 right before one or "
+        "all of its guards (the guard statement, not the code before it, is "
+        "what makes the packet accessible)",
         "32-bit signed registers (sw) as write sources are C01's subject "
         "(known finding there) and are only judged through the range rule",
         "native byte order and standard sizes are those of this machine "
@@ -1139,7 +1161,7 @@ def replay(ctx, rep):
     res = core.Result()
     c = rep["case"]
     if c.get("family") == "guards":
-        case = dict(min=c["min"], top=c["top"])
+        case = dict(min=c["min"], top=c["top"], clobber=c.get("clobber"))
         run_guard_case(case, rep.get("seed", ctx.seed), res, 0, 0,
                        only=[(c["length"], c["content"])])
         try:
